@@ -101,6 +101,39 @@ def run(ctx):
             ctx.count("fft:last-" + ("odd" if fast[-1] % 2 else "even"))
             ctx.distinct(("fft", tuple(fast), dt.__name__))
 
+    # ---- plans requested one after the other in one process: shapes that share the half-spectrum shape (last axis 2k and
+    # 2k+1 both have k+1 complex bins) must each get a transform pair of their own
+    pairs = [((14,), (15,)), ((4, 14), (4, 15)), ((3, 5, 8), (3, 5, 9)), ((6, 20), (6, 21))]
+    if ctx.thorough:
+        pairs += [((int(a), 2 * int(k)), (int(a), 2 * int(k) + 1)) for a, k in zip(rng.integers(2, 9, size=10), rng.integers(2, 12, size=10))]
+    for pa in pairs:
+        for order_ in (pa, pa[::-1]):
+            for dt, cdt, tol in ((np.float32, np.complex64, 1e-4), (np.float64, np.complex128, 1e-10)):
+                plans = []
+                errs = []
+                try:
+                    for fast in order_:
+                        ft = tuple(fast[:-1]) + (fast[-1] // 2 + 1,)
+                        plans.append((fast, ft, be.build_fft(fast_shape=tuple(fast), fast_ft_shape=ft, real_dtype=dt, complex_dtype=cdt)))
+                    for fast, ft, (rf, irf) in plans:
+                        x = rng.integers(-4, 5, size=fast).astype(dt)
+                        xin = be.zeros(tuple(fast), dt)
+                        xin[:] = x
+                        spec_ = be.zeros(ft, cdt)
+                        out = be.zeros(tuple(fast), dt)
+                        rf(xin, spec_)
+                        ref = np.fft.rfftn(x.astype(np.float64))
+                        e_spec = float(np.max(np.abs(np.asarray(spec_) - ref))) / max(1.0, float(np.abs(ref).max()))
+                        irf(spec_, out)          # (the complex-to-real transform may overwrite its input)
+                        errs.append(max(float(np.max(np.abs(out - x))), e_spec))
+                    okp = max(errs) <= tol * 10
+                    det = {"err": max(errs)}
+                except Exception as e:  # noqa
+                    okp, det = False, type(e).__name__ + ":" + str(e)[:80]
+                ctx.spec("rfftn∘irfftn = id", {"sequence": [list(f) for f in order_], "dtype": dt.__name__}, okp, det, key="fft-roundtrip")
+                ctx.count("fft:plan-sequence")
+                ctx.distinct(("fftseq", order_, dt.__name__))
+
     # ---- topleft_pad
     n_pad = ctx.budget(150, 1500)
     reqs, keep = [], []
@@ -162,6 +195,25 @@ def run(ctx):
             ctx.distinct(("center", cur % 2, new % 2, cur, new))
         ctx.count("center:" + ("shrink" if new <= cur else "grow"))
 
+    # ---- centered_mask directly, 1-3 D, including axes whose extent is not reduced at all
+    from tme.matching_utils import centered_mask
+    for _ in range(ctx.budget(60, 400)):
+        nd = int(rng.integers(1, 4))
+        cur = [int(x) for x in rng.integers(1, 9, size=nd)]
+        new = [int(c if rng.random() < 0.4 else rng.integers(1, c + 1)) for c in cur]
+        vals = rng.integers(1, 9, size=cur).astype(np.float32)
+        box = _center_slice(tuple(cur), tuple(new))
+        want = np.zeros_like(vals)
+        want[box] = vals[box]
+        try:
+            got = np.asarray(centered_mask(vals.copy(), tuple(new)))
+            okm = got.shape == vals.shape and np.array_equal(got, want)
+        except Exception as e:  # noqa
+            okm, got = False, type(e).__name__
+        ctx.spec("masked centre extraction keeps the box and zeroes the rest", {"cur": cur, "new": new}, okm,
+                 None if okm else {"kept": int(np.count_nonzero(got)) if not isinstance(got, str) else got, "expected": int(np.count_nonzero(want))},
+                 key="centered_mask")
+        ctx.distinct(("cmask", tuple(cur), tuple(new)))
     # ---- convolution-mode crops, 1-3 D, contents checked through an index array
     M = ctx.budget(9, 14)
     reqs, keep = [], []
@@ -211,6 +263,24 @@ def run(ctx):
             impl = [[None, 0]] * nd if got[0].size == 0 else impl
         ctx.agree("apply_convolution_mode(nD)", {"s1": s1, "s2": s2, "mode": mode}, impl, model)
         ctx.distinct(("cropnd", tuple(s1), tuple(s2), mode))
+        # the masking form keeps the array's shape, zeroes everything outside the same centre box and keeps the values inside
+        if all(isinstance(x[0], int) for x in impl):
+            vals = rng.integers(1, 9, size=fast).astype(np.float64)
+            try:
+                masked = np.asarray(apply_convolution_mode(vals.copy(), mode, s1, s2, mask_output=True))
+                # (the FFT padding beyond the convolution shape is cut off first, then the centre box is kept inside it)
+                conv = tuple(slice(0, a + b - 1) for a, b in zip(s1, s2))
+                want = np.zeros_like(vals[conv])
+                box = tuple(slice(a, a + e) for a, e in impl)
+                want[box] = vals[conv][box]
+                okm = masked.shape == want.shape and np.array_equal(masked, want)
+            except Exception as e:  # noqa
+                okm, masked = False, type(e).__name__
+            ctx.spec("masked centre extraction keeps the box and zeroes the rest", {"s1": s1, "s2": s2, "mode": mode, "shape": fast}, okm,
+                     None if okm else {"kept": int(np.count_nonzero(masked)) if not isinstance(masked, str) else masked,
+                                       "expected": int(np.count_nonzero(want)) if not isinstance(masked, str) else None},
+                     key="centered_mask")
+            ctx.count("masked-crop:" + ("some-axis-without-margin" if any(e == a + b - 1 for (_, e), a, b in zip(impl, s1, s2)) else "all-axes-cropped"))
     ctx.sample({"helper": "apply_convolution_mode", "s1": s1, "s2": s2, "mode": mode, "impl(start,extent)": impl})
 
     # ---- shared memory read back in another process
